@@ -287,21 +287,17 @@ theorem sliceBlock_fun (cmp : Bytes → Bytes → Ordering) (start limit : Optio
     sliceBlock cmp start limit = fun es => (es.dropWhile (belowStart cmp start)).takeWhile (belowLimit cmp limit) :=
   funext (sliceBlock_eq cmp start limit)
 
-/-- content of a range-restricted iterator over a written table, on the shape level -/
-theorem range_written (cfg : TableCfg) (hc : LawfulCmp cfg.cmp) (hsep : SepOK cfg) (hsucc : SuccOK cfg)
-    (hck : Cksum32 cfg.cksum) (cs : List (List KV)) (fb : Option Bytes)
-    (hfb : fb.isSome = cfg.filter.isSome) (hsz : (tableFile cfg cs fb).length < 2 ^ 32)
-    (hname : ∀ pol, cfg.filter = some pol → (filterMetaKey pol).length < 2 ^ 64) (v : Bool)
+/-- content of a range-restricted iterator for any reader over the data blocks and the index block of a written table -/
+theorem range_reader (cfg : TableCfg) (hc : LawfulCmp cfg.cmp) (hsep : SepOK cfg) (hsucc : SuccOK cfg)
+    (hck : Cksum32 cfg.cksum) (cs : List (List KV)) (t : TableR) (hcmp : t.cmp = cfg.cmp) (hcks : t.cksum = cfg.cksum)
+    (hfile : ∃ post, t.file = dataBytes cfg cs ++ post)
+    (hidx : t.index = layoutR (enc 1 (ixE cfg 0 cs [])) (restartsOf 1 (ixE cfg 0 cs [])))
+    (hfsz : t.file.length < 2 ^ 32) (hixl : (ixB cfg cs).length < 2 ^ 32)
     (hshape : cs = [[]] ∨ ChunksOK cfg cs []) (hsm : SmallKV cs.flatten) (start limit : Option Bytes) :
-    ∃ t, Table.open cfg v (tableFile cfg cs fb) = some t ∧
-      t.entriesInRange start limit = some (sliceBlock cfg.cmp start limit cs.flatten) := by
-  obtain ⟨t, ho, hcmp, hcks, _, hfile, hidx, _, _⟩ := open_shape cfg hck cs fb hfb hsz hname v
-  refine ⟨t, ho, ?_⟩
-  have hfsz : t.file.length < 2 ^ 32 := by rw [hfile]; exact hsz
-  obtain ⟨post, hpost⟩ := tableFile_data_prefix cfg cs fb
-  simp only [List.nil_append] at hpost
+    t.entriesInRange start limit = some (sliceBlock cfg.cmp start limit cs.flatten) := by
+  obtain ⟨post, hpost⟩ := hfile
   unfold TableR.entriesInRange
-  rw [hidx, entries_layout 1 _ (smallKV_ix cfg cs fb hsz)]
+  rw [hidx, entries_layout 1 _ (smallKV_ix' cfg cs hixl)]
   simp only [hcmp]
   rw [sliceIndex_eq]
   obtain ⟨A, cs1, hs1, hallA, _, hdwA, hhdA⟩ := ixE_split' cfg (belowStart cfg.cmp start) [] cs 0
@@ -311,7 +307,7 @@ theorem range_written (cfg : TableCfg) (hc : LawfulCmp cfg.cmp) (hsep : SepOK cf
   have hsmall : ∀ c ∈ cs, SmallKV c := fun c hm => small_chunk cs hsm c hm
   have hC : C = C.take 1 ++ C.drop 1 := (List.take_append_drop 1 C).symm
   have hfileA : t.file = dataBytes cfg A ++ (dataBytes cfg B ++ (dataBytes cfg C ++ post)) := by
-    rw [hfile, hpost, hs1, hs2, dataBytes_append, dataBytes_append]; simp only [List.append_assoc]
+    rw [hpost, hs1, hs2, dataBytes_append, dataBytes_append]; simp only [List.append_assoc]
   have hb1 := blocksOf_ixE t cfg hck hcks hfsz (C.flatten ++ []) B (dataBytes cfg A) (dataBytes cfg C ++ post) hfileA
     (fun c hm => hsmall c (by rw [hs1, hs2]; simp [hm]))
   have hb2 := blocksOf_ixE t cfg hck hcks hfsz ((C.drop 1).flatten ++ []) (C.take 1) (dataBytes cfg A ++ dataBytes cfg B)
@@ -368,6 +364,18 @@ theorem range_written (cfg : TableCfg) (hc : LawfulCmp cfg.cmp) (hsep : SepOK cf
     · intro cl R hcl kv hkv
       have hok' : ChunksOK cfg (cl :: R) [] := hcl ▸ hokcs1.right
       exact none_after_head hc hsep hsucc _ hPl [] cl R _ hok' (by rw [← hcl]; exact hhdB) kv (by simpa using hkv)
+
+/-- content of a range-restricted iterator over a written table, on the shape level -/
+theorem range_written (cfg : TableCfg) (hc : LawfulCmp cfg.cmp) (hsep : SepOK cfg) (hsucc : SuccOK cfg)
+    (hck : Cksum32 cfg.cksum) (cs : List (List KV)) (fb : Option Bytes)
+    (hfb : fb.isSome = cfg.filter.isSome) (hsz : (tableFile cfg cs fb).length < 2 ^ 32)
+    (hname : ∀ pol, cfg.filter = some pol → (filterMetaKey pol).length < 2 ^ 64) (v : Bool)
+    (hshape : cs = [[]] ∨ ChunksOK cfg cs []) (hsm : SmallKV cs.flatten) (start limit : Option Bytes) :
+    ∃ t, Table.open cfg v (tableFile cfg cs fb) = some t ∧
+      t.entriesInRange start limit = some (sliceBlock cfg.cmp start limit cs.flatten) := by
+  obtain ⟨t, ho, hcmp, hcks, _, hfile, hidx, _, _⟩ := open_shape cfg hck cs fb hfb hsz hname v
+  obtain ⟨hpost, hfsz, hixl⟩ := written_file_facts cfg cs fb t hfile hsz
+  exact ⟨t, ho, range_reader cfg hc hsep hsucc hck cs t hcmp hcks hpost hidx hfsz hixl hshape hsm start limit⟩
 
 /-! ## on a sorted list, slicing is filtering -/
 
